@@ -5,7 +5,7 @@
    "../x" entry, stat/delete -> raises); any number of faults, anywhere. *)
 From Coq Require Import ZArith String Ascii List Bool.
 Require Import DS.Model.PyStr DS.Gen.GenNorm DS.Model.GC DS.Proofs.GCNormProofs DS.Proofs.GCProofs DS.Proofs.GCFaultProofs.
-Require Import DS.Model.GCPointer DS.Proofs.GCPointerProofs.
+Require Import DS.Model.GCPointer DS.Proofs.GCPointerProofs DS.Proofs.PyStrProofs DS.Model.GCHist DS.Proofs.GCHistProofs.
 Require Import DS.Model.Doc DS.Gen.GenDoc DS.Model.GCDoc DS.Proofs.GCDocProofs.
 Import ListNotations.
 Open Scope string_scope.
@@ -23,7 +23,8 @@ Proof. exact gc_safe_all_faults. Qed.
 Print Assumptions C07_fail_closed.
 
 (* Every damage class of a reachable manifest list or manifest (missing; or present but not parseable as what it must
-   be: garbage, empty, truncated Avro, a file of the other kind) aborts before the first sweep having deleted nothing --
+   be: garbage, empty, truncated Avro, a file of the other kind, a JSON object without its `manifests` / `files` section --
+   as_list / as_manifest of CJsonEmpty is None) aborts before the first sweep having deleted nothing --
    under ANY additional faults, and whichever of the two preparatory phases the source runs first. *)
 Theorem C07_damage : forall (tp : string) (grace now timeout : Z) (o : oracle) (snaps : list string) (st : store) (k : key),
   wf_store snaps st ->
@@ -61,21 +62,66 @@ Theorem C07_partial_decode : forall (tp : string) (grace now timeout : Z) (o : o
 Proof. exact partial_decode_aborts. Qed.
 Print Assumptions C07_partial_decode.
 
-(* The pointer plane.  Storage may hold metadata versions that were never published (a writer died between writing v(N+1) and
-   flipping the pointer).  With the pointer published at p: whatever the first resolution (refresh) was told -- the pointer
-   looking missing or garbled, the hinted file reported missing, so that the scan picks the highest version on storage -- a
-   collection whose second, independent read of the pointer is answered (truthfully) never works from another version than p;
-   and a pointer read that raises aborts. *)
-Theorem C07_pointer_consistent : forall (vs : list nat) (p : nat) (a1 : pans) (x1 : nat -> pex) (a2 : pans) (x2 : nat -> pex) (u : nat),
-  honest p a1 -> honest p a2 -> a2 <> PNone ->
-  collect_resolve vs a1 x1 a2 x2 = RUse u -> u = p.
-Proof. exact pointer_consistent. Qed.
-Print Assumptions C07_pointer_consistent.
+(* The pointer plane, connected to the collector (Model/GCPointer.v collect_pointer = the two resolutions of the pointer, the
+   read of the resolved metadata FILE, then Model/GCDoc.v collect_doc / Model/GC.v gc_run on its document).  Storage may hold
+   metadata files that were never published (a writer died between writing v(N+1) and flipping the pointer); files are
+   identified by name, and the collector's re-check compares metadata CONTENT (`same`), not version numbers.
+   With the pointer published at the file p holding the document dp: whatever the first resolution (refresh) was told -- the
+   pointer looking missing or garbled, the hinted file reported missing, so that the scan picks the highest version on
+   storage -- and whatever exists / listing / stat / read answers both resolutions get, a collection whose second,
+   independent read of the pointer is answered (truthfully, or by raising) aborts / refuses having deleted nothing, or runs on
+   exactly the manifest lists of the PUBLISHED document and satisfies C07_fail_closed's specification for them, under every
+   fault oracle of the collection proper.
+   _partial: the hypothesis `a_hint a2 <> PNone` is needed -- see C07_pointer_run_safe_refuted. *)
+Theorem C07_pointer_run_safe_partial : forall (ext : string -> jv -> bool) (same : jv -> jv -> bool) (tp : string) (grace now timeout : Z) (o : oracle)
+    (a1 a2 : answers) (files : list (mfile jv)) (st : store) (p : mfile jv) (dp : jv),
+  (forall a b, same a b = true -> doc_lists a = doc_lists b) ->
+  find_file (mf_name p) files = Some p -> mf_body p = Some dp -> accepts ext gen_metadata_shape dp = true ->
+  honest p a1 -> honest p a2 -> a_hint a2 <> PNone ->
+  wf_store (doc_lists dp) st ->
+  match collect_pointer ext same tp grace now timeout o a1 a2 files st with
+  | PUse f (DocRun r) => gc_safe_spec now grace timeout (doc_lists dp) st r
+  | other => pointer_deleted other = []
+  end.
+Proof. exact pointer_run_safe. Qed.
+Print Assumptions C07_pointer_run_safe_partial.
 
-Theorem C07_pointer_raise_aborts : forall (vs : list nat) (a1 : pans) (x1 : nat -> pex) (a2 : pans) (x2 : nat -> pex),
-  a1 = PRaise \/ (a2 = PRaise /\ exists u, refresh_resolve vs a1 x1 = RUse u) -> collect_resolve vs a1 x1 a2 x2 = RAbort.
+(* The residual window, stated honestly: the same statement WITHOUT the hypothesis on the second pointer read is FALSE of the
+   code.  A pointer that looks absent at both reads is, for the library, a lost pointer (recovered by scanning: the pointer is
+   only a hint, C10); with a dead writer's unpublished higher version on storage the scan makes that version the table and the
+   collection deletes files the published metadata references (the witness: Proofs/GCPointerProofs.v wx_*; on the real
+   library: C10's known finding `unpublished-surfaced`, seeded change C07-g). *)
+Definition C07_pointer_run_safe_full : Prop := pointer_run_safe_full.
+Theorem C07_pointer_run_safe_refuted : ~ C07_pointer_run_safe_full.
+Proof. exact pointer_run_safe_full_refuted. Qed.
+Print Assumptions C07_pointer_run_safe_refuted.
+
+(* ... and when there is nothing unpublished above the published file (the scan's choice is p), a pointer lost at both reads
+   is harmless: the collection works from p. *)
+Theorem C07_pointer_lost_hint_partial : forall (D : Type) (same : D -> D -> bool) (fs : list (mfile D)) (p : mfile D) (a1 a2 : answers) (f : mfile D) (d : D),
+  a_hint a1 = PNone -> a_hint a2 = PNone -> scan_pick a1 fs = Some p ->
+  collect_resolve same a1 a2 fs = RUse f d -> mf_name f = mf_name p.
+Proof. exact resolve_lost_hint_scan. Qed.
+Print Assumptions C07_pointer_lost_hint_partial.
+
+(* a pointer read that RAISES (at either resolution) never lets the collection run *)
+Theorem C07_pointer_raise_aborts : forall (ext : string -> jv -> bool) (same : jv -> jv -> bool) (tp : string) (grace now timeout : Z) (o : oracle)
+    (a1 a2 : answers) (files : list (mfile jv)) (st : store),
+  a_hint a1 = PRaise \/ a_hint a2 = PRaise ->
+  forall f res, collect_pointer ext same tp grace now timeout o a1 a2 files st <> PUse f res.
 Proof. exact pointer_raise_aborts. Qed.
 Print Assumptions C07_pointer_raise_aborts.
+
+(* the metadata file a collection works from is on storage, was read without a failure, is JSON and is accepted by the reader:
+   a metadata file that is missing, unparseable or failing transiently is never worked from (and what runs is collect_doc on
+   its document: C07_metadata_document_fail_closed below) *)
+Theorem C07_pointer_unreadable_never_used : forall (ext : string -> jv -> bool) (same : jv -> jv -> bool) (tp : string) (grace now timeout : Z) (o : oracle)
+    (a1 a2 : answers) (files : list (mfile jv)) (st : store) (f : mfile jv) (res : doc_result),
+  collect_pointer ext same tp grace now timeout o a1 a2 files st = PUse f res ->
+  exists f0 d, find_file (mf_name f) files = Some f0 /\ mf_body f0 = Some d /\ accepts ext gen_metadata_shape d = true
+               /\ a_read_raises a1 (mf_name f) = false /\ res = collect_doc ext tp grace now timeout o d st.
+Proof. exact pointer_uses_readable. Qed.
+Print Assumptions C07_pointer_unreadable_never_used.
 
 (* A marker whose stat or delete fails -- more generally ANY marker that is still present after the run -- kept
    everything it denotes (its payload path, or when the payload is unusable every path its name can denote) out of the
@@ -88,6 +134,21 @@ Theorem C07_marker_keep : forall (tp : string) (grace now timeout : Z) (o : orac
   (forall mk ob, lookup mk st = Some ob -> is_marker_key mk -> lookup mk (g_store (r_final r)) = None -> mtime ob < now - timeout).
 Proof. exact marker_keep. Qed.
 Print Assumptions C07_marker_keep.
+
+(* The writer's marker naming and the collector's fallback agree (both REGENERATED: Gen/GenNorm.v register_marker_path /
+   register_marker_payload from Transaction._register_inflight, marker_fallback from GarbageCollector._marker_targets): for
+   every file a transaction registers -- under data/ or metadata/manifests/, written with or without a leading slash, its own
+   name free of "/" -- the marker written for it is a marker for the collector, and the paths protected when that marker's
+   payload CANNOT be read contain the registered file.  (C07_marker_keep: a marker that is present protects what its name
+   can denote; this theorem: what the name denotes includes what the writer registered.) *)
+Theorem C07_registered_marker_fallback_covers : forall (dir name : string), In dir registered_dirs -> has_char slash name = false ->
+  let file := (dir ++ String slash name)%string in
+  is_marker_key (register_marker_path file)
+  /\ In (resolve (register_marker_payload file)) (marker_fallback (basename (register_marker_path file)))
+  /\ (startswith "data/" (resolve (register_marker_payload file)) = true
+      \/ startswith "metadata/manifests/" (resolve (register_marker_payload file)) = true).
+Proof. exact registered_marker_fallback_covers. Qed.
+Print Assumptions C07_registered_marker_fallback_covers.
 
 (* ---- STRUCTURED damage: the file is still a good JSON / Avro document, but a key is gone, null, or of another type.
    The readers' demands are the shapes regenerated from the source (Gen/GenDoc.v); `ext` is the one external validation
@@ -118,6 +179,41 @@ Theorem C07_lost_section_refused : forall (ext : string -> jv -> bool) (tp : str
   collect_doc ext tp grace now timeout o d st = DocRefused.
 Proof. exact lost_section_refused. Qed.
 Print Assumptions C07_lost_section_refused.
+
+(* A metadata document that contradicts itself about its snapshots -- its current_snapshot_id is set (not null, not -1) and
+   none of the snapshots it lists has that id: `snapshots: []` under a set current_snapshot_id, the current snapshot gone from
+   the list -- is refused by the collector (GarbageCollectionAborted before anything is deleted), whatever else it contains:
+   it never parses as "a table whose other snapshots are garbage".  (The check in collect() is read off the source:
+   Gen/GenNorm.v COLLECT_CHECKS_CURRENT_SNAPSHOT; the keys: Gen/GenDoc.v.) *)
+Theorem C07_dangling_current_refused : forall (ext : string -> jv -> bool) (tp : string) (grace now timeout : Z) (o : oracle) (d : jv) (st : store),
+  dangling_current d -> collect_doc ext tp grace now timeout o d st = DocRefused.
+Proof. exact dangling_current_doc_refused. Qed.
+Print Assumptions C07_dangling_current_refused.
+
+(* ... and a collection that RUNS worked from the manifest list of the document's current snapshot: the document says that
+   there is no snapshot yet, or its current snapshot is one of the listed snapshots and that snapshot's manifest list is among
+   the lists the run keeps (doc_lists d: C07_metadata_document_fail_closed gives gc_safe_spec for them). *)
+Theorem C07_run_protects_current_snapshot : forall (ext : string -> jv -> bool) (tp : string) (grace now timeout : Z) (o : oracle) (d : jv) (st : store) (r : result),
+  collect_doc ext tp grace now timeout o d st = DocRun r ->
+  exists c items, py_getitem d gen_current_snapshot_key = Some c /\ py_getitem d gen_snapshots_key = Some (JArr items)
+    /\ (current_unset c = true
+        \/ exists it l, In it items /\ snapshot_has_id c it = true
+                        /\ py_getitem it gen_manifest_list_key = Some (JStr l) /\ In l (doc_lists d)).
+Proof. exact run_protects_current. Qed.
+Print Assumptions C07_run_protects_current_snapshot.
+
+(* Legacy JSON manifest lists / manifests.  A reachable list / manifest in the legacy JSON format whose document LOST the
+   section it consists of -- `manifests` / `files` missing, null, or anything but a list -- is not an empty list / manifest: the
+   reader refuses it (regenerated shapes: the section is subscripted and must be a list) and the collection aborts before the
+   first sweep having deleted nothing, under any faults. *)
+Theorem C07_json_section_lost_aborts : forall (ext : string -> jv -> bool) (tp : string) (grace now timeout : Z) (o : oracle) (snaps : list string)
+    (st : store) (k : key) (ob : obj) (d : jv),
+  wf_store snaps st -> lookup k st = Some ob ->
+  (ref_list snaps k /\ body ob = list_json_content ext d /\ forall l, py_getitem d gen_list_json_key <> Some (JArr l))
+  \/ (ref_manifest snaps st k /\ body ob = manifest_json_content ext d /\ forall l, py_getitem d gen_manifest_json_key <> Some (JArr l)) ->
+  aborted_before_sweep (gc_run tp grace now timeout o snaps st) /\ r_deleted (gc_run tp grace now timeout o snaps st) = [].
+Proof. exact json_section_lost_aborts. Qed.
+Print Assumptions C07_json_section_lost_aborts.
 
 (* Manifest lists and manifests as decoded records.  A reachable list / manifest that is read (as_list / as_manifest of its
    content class) was accepted record by record and every record contributed exactly the path it carries as a string ... *)
@@ -202,18 +298,65 @@ Proof.
   - split; vm_compute; tauto.
 Qed.
 
-(* Non-vacuity of the pointer theorems, and what they exclude: versions 3 (published) and 4 (a dead writer's leftover) on
-   storage.  One wrong answer at the first resolution is caught by the second (abort); a raising read aborts; only a pointer
-   that looks absent BOTH times (for the library: a lost pointer) makes the scan result the table. *)
-Definition all_there (_ : nat) : pex := XTrue.
+(* Non-vacuity of the pointer theorems, and what they exclude: the metadata documents of the example table (ex_doc below:
+   published, v3) and of the same table after a dead writer's unpublished expiry (v4: only the newest snapshot) on storage.
+   Answered truthfully the collection works from v3 and completes; one wrong answer at the first resolution (the pointer
+   looking missing: the scan picks v4) is caught by the second (abort); a raising read aborts; a transient failure reading v3
+   aborts; only a pointer that looks absent BOTH times makes v4 the table -- and then the published snapshot's manifest list l1
+   is deleted (the residual window of C07_pointer_run_safe_refuted). *)
+Definition nv_ext (_ : string) (_ : jv) : bool := true.
+Definition nv_snapshot (i : Z) (l : string) : jv := JObj [("snapshot_id", JNum i); ("timestamp_ms", JNum 5); ("manifest_list", JStr l)].
+Definition nv_doc (cur : jv) (snaps : list jv) : jv :=
+  JObj [("location", JStr "data"); ("table_uuid", JStr "u"); ("format_version", JNum 2); ("last_sequence_number", JNum 2);
+        ("last_updated_ms", JNum 9); ("last_column_id", JNum 1);
+        ("schemas", JArr [JObj [("schema_id", JNum 1); ("fields", JArr [])]]); ("current_schema_id", JNum 1);
+        ("partition_specs", JArr [JObj [("spec_id", JNum 0); ("fields", JArr [])]]); ("default_spec_id", JNum 0);
+        ("sort_orders", JArr [JObj [("order_id", JNum 1); ("fields", JArr [])]]); ("default_sort_order_id", JNum 1);
+        ("properties", JObj []); ("current_snapshot_id", cur); ("snapshot_log", JArr []); ("metadata_log", JArr []);
+        ("snapshots", JArr snaps)].
+Definition nv_published : jv := nv_doc (JNum 2) [nv_snapshot 1 "metadata/manifests/l1.avro"; nv_snapshot 2 "metadata/manifests/l2.avro"].
+Definition nv_leftover : jv := nv_doc (JNum 2) [nv_snapshot 2 "metadata/manifests/l2.avro"].
+Definition nv_p : mfile jv := mkMF "v3.metadata.json" 3%nat 100 (Some nv_published).
+Definition nv_files : list (mfile jv) := [nv_p; mkMF "v4-0a1b2c3d.metadata.json" 4%nat 200 (Some nv_leftover)].
+Definition nv_same (a b : jv) : bool := if list_eq_dec string_dec (doc_lists a) (doc_lists b) then true else false.
+Definition nv_truth : answers := mkA (PSome "v3.metadata.json") (fun _ => XTrue) false (fun _ => false) (fun _ => false).
+Definition nv_with (h : pans) (rd : string -> bool) : answers := mkA h (fun _ => XTrue) false (fun _ => false) rd.
+Definition nv_run (a1 a2 : answers) : presult := collect_pointer nv_ext nv_same "data" 1000 1000000 86400000 no_faults a1 a2 nv_files ex_st.
+Definition nv_outcome (r : presult) : string * list key :=
+  match r with
+  | PAbort => ("abort", []) | PNoTable => ("no table", [])
+  | PUse f DocRefused => (mf_name f, [])
+  | PUse f (DocRun r) => (mf_name f, r_deleted r)
+  end.
 Example C07_pointer_nonvacuous :
-  collect_resolve [3; 4]%nat (PSome 3%nat) all_there (PSome 3%nat) all_there = RUse 3%nat
-  /\ collect_resolve [3; 4]%nat PNone all_there (PSome 3%nat) all_there = RAbort
-  /\ collect_resolve [3; 4]%nat (PSome 3%nat) (fun _ => XFalse) (PSome 3%nat) all_there = RAbort
-  /\ collect_resolve [3; 4]%nat PRaise all_there (PSome 3%nat) all_there = RAbort
-  /\ collect_resolve [3; 4]%nat PNone all_there PRaise all_there = RAbort
-  /\ collect_resolve [3; 4]%nat PNone all_there PNone all_there = RUse 4%nat.
-Proof. repeat split; reflexivity. Qed.
+  doc_lists nv_published = ex_snaps /\ wf_store (doc_lists nv_published) ex_st
+  /\ accepts nv_ext gen_metadata_shape nv_published = true /\ honest nv_p nv_truth /\ honest nv_p (nv_with PNone (fun _ => false))
+  /\ nv_outcome (nv_run nv_truth nv_truth) = ("v3.metadata.json", ["metadata/manifests/old.avro"; "data/orphan.parquet"])
+  /\ nv_outcome (nv_run (nv_with PNone (fun _ => false)) nv_truth) = ("abort", [])
+  /\ nv_outcome (nv_run (nv_with PRaise (fun _ => false)) nv_truth) = ("abort", [])
+  /\ nv_outcome (nv_run nv_truth (nv_with PRaise (fun _ => false))) = ("abort", [])
+  /\ nv_outcome (nv_run (nv_with (PSome "v3.metadata.json") (String.eqb "v3.metadata.json")) nv_truth) = ("abort", [])
+  /\ fst (nv_outcome (nv_run (nv_with PNone (fun _ => false)) (nv_with PNone (fun _ => false)))) = "v4-0a1b2c3d.metadata.json"
+  /\ In "metadata/manifests/l1.avro" (snd (nv_outcome (nv_run (nv_with PNone (fun _ => false)) (nv_with PNone (fun _ => false)))))
+  /\ ref_list (doc_lists nv_published) "metadata/manifests/l1.avro".
+Proof.
+  split; [vm_compute; reflexivity|]. split; [apply wf_storeb_sound; vm_compute; reflexivity|].
+  split; [vm_compute; reflexivity|]. split; [left; reflexivity|]. split; [right; left; reflexivity|].
+  split; [vm_compute; reflexivity|]. split; [vm_compute; reflexivity|]. split; [vm_compute; reflexivity|].
+  split; [vm_compute; reflexivity|]. split; [vm_compute; reflexivity|]. split; [vm_compute; reflexivity|].
+  split; [vm_compute; tauto|].
+  exists "metadata/manifests/l1.avro". repeat split; vm_compute; auto.
+Qed.
+
+(* Non-vacuity of C07_registered_marker_fallback_covers: the marker of a data file and of a manifest written during commit *)
+Example C07_marker_naming_nonvacuous :
+  register_marker_path "data/f1.parquet" = "metadata/inflight/f1.parquet.inflight"
+  /\ marker_fallback (basename (register_marker_path "data/f1.parquet")) = ["data/f1.parquet"; "metadata/manifests/f1.parquet"]
+  /\ register_marker_path "/metadata/manifests/manifest_7.avro" = "metadata/inflight/manifest_7.avro.inflight"
+  /\ In (resolve (register_marker_payload "/metadata/manifests/manifest_7.avro"))
+        (marker_fallback (basename (register_marker_path "/metadata/manifests/manifest_7.avro")))
+  /\ In "data" registered_dirs /\ has_char slash "f1.parquet" = false.
+Proof. repeat split; vm_compute; auto. Qed.
 
 (* Non-vacuity of the document theorems: a metadata document for the example table is accepted and yields the example's
    manifest lists; the same document with its snapshots section dropped / null / an empty object / an empty string, or with
@@ -250,4 +393,40 @@ Proof.
   split; [vm_compute; reflexivity|]. split; [vm_compute; reflexivity|]. split; [discriminate|].
   split; [eexists; split; vm_compute; reflexivity|].
   repeat split; vm_compute; reflexivity.
+Qed.
+
+(* Non-vacuity of C07_dangling_current_refused / C07_run_protects_current_snapshot / C07_json_section_lost_aborts: the example
+   document with its snapshots section emptied in place (`snapshots: []`, current_snapshot_id still 1) is accepted by the
+   READER (a well-formed document) and dangling: refused by the collector; with current_snapshot_id null or -1 the same empty
+   list is "no snapshot yet" and the collection runs.  A legacy JSON manifest list with its section is read; `{}`, the section
+   under another key, null or an empty object in its place are not lists; in the example store with l2 replaced by such a
+   document the collection aborts in the list phase. *)
+Definition ex_json_list (v : option jv) : jv := JObj (match v with Some x => [("manifests", x)] | None => [("manifestz", JArr [])] end).
+Definition ex_json_lost : store := replace_body "metadata/manifests/l2.avro" (list_json_content ex_ext (JObj [])) ex_st.
+Example C07_dangling_nonvacuous :
+  accepts ex_ext gen_metadata_shape (ex_doc_with (Some (JArr []))) = true /\ dangling_current (ex_doc_with (Some (JArr [])))
+  /\ collect_doc ex_ext "data" 1000 1000000 86400000 no_faults (ex_doc_with (Some (JArr []))) ex_st = DocRefused
+  /\ ~ dangling_current ex_doc
+  /\ (exists r, collect_doc ex_ext "data" 1000 1000000 86400000 no_faults nv_leftover ex_st = DocRun r
+                 /\ In "metadata/manifests/l2.avro" (doc_lists nv_leftover))
+  /\ list_json_content ex_ext (ex_json_list (Some (JArr [ex_list_record (JStr "metadata/manifests/m1.avro")]))) = CList FJson ["metadata/manifests/m1.avro"]
+  /\ as_list (list_json_content ex_ext (JObj [])) = None
+  /\ as_list (list_json_content ex_ext (ex_json_list None)) = None
+  /\ as_list (list_json_content ex_ext (ex_json_list (Some JNull))) = None
+  /\ as_list (list_json_content ex_ext (ex_json_list (Some (JObj [])))) = None
+  /\ as_manifest (manifest_json_content ex_ext (JObj [])) = None
+  /\ wf_store ex_snaps ex_json_lost /\ ref_list ex_snaps "metadata/manifests/l2.avro"
+  /\ (r_out (run_with no_faults ex_json_lost), r_deleted (run_with no_faults ex_json_lost)) = (Aborted PhLists, []).
+Proof.
+  split; [vm_compute; reflexivity|]. split.
+  { exists (JNum 1), []. repeat split; try (vm_compute; reflexivity); [discriminate|intros it []]. }
+  split; [vm_compute; reflexivity|]. split.
+  { intros [c [items [Gc [Gs [_ [_ Hno]]]]]]. vm_compute in Gc. inversion Gc; subst c. vm_compute in Gs. inversion Gs; subst items.
+    specialize (Hno _ (or_introl eq_refl) (JNum 1) eq_refl). discriminate. }
+  split; [eexists; split; [vm_compute; reflexivity|vm_compute; auto]|].
+  split; [vm_compute; reflexivity|]. split; [vm_compute; reflexivity|]. split; [vm_compute; reflexivity|].
+  split; [vm_compute; reflexivity|]. split; [vm_compute; reflexivity|]. split; [vm_compute; reflexivity|].
+  split; [apply wf_storeb_sound; vm_compute; reflexivity|].
+  split; [exists "metadata/manifests/l2.avro"; repeat split; simpl; auto|].
+  vm_compute. reflexivity.
 Qed.
